@@ -46,9 +46,19 @@ Explains(fin, r) ==
 ModelEnv(list) == << << "vi", VIntN(7) >>, << "x", VIntN(40) >>,
                     << "vl", VList([i \in 1..Len(list) |-> VIntN(list[i])]) >>,
                     << "vm", [t |-> "map", e |-> << << VStr(<<97>>), VIntN(1) >>, << VStr(<<98>>), VIntN(0) >> >>, ord |-> TRUE] >> >>
+\* a host function registered under an existing name replaces it
+FOf(r) == IF "overrides" \in DOMAIN r /\ r.overrides # << >>
+          THEN [n \in DOMAIN F \cup {r.overrides[i] : i \in 1..Len(r.overrides)} |->
+                  IF \E i \in 1..Len(r.overrides) : r.overrides[i] = n THEN ZO!H(<< ZO!A >>, "pack") ELSE F[n]]
+          ELSE F
 Finals(r) == IF "syms" \in DOMAIN r
              THEN RunSet(InitCfg(AST!Expand(AST!ParsePrefix(r.syms).tree), ModelEnv(r.vl)), F)
-             ELSE RunSet(InitCfg(r.ast, RootScope(r.vars)), F)
+             ELSE RunSet(InitCfg(r.ast, RootScope(r.vars)), FOf(r))
+
+\* x.f(args) and f(x, args), recorded side by side, must have the same outcome
+SameOutcome(o1, o2) == \/ (o1.k = "v" /\ o2.k = "v" /\ Same(o1.v, o2.v))
+                       \/ (o1.k = "e" /\ o2.k = "e" /\ o1.c = o2.c)
+TwinOK(r) == "twin" \in DOMAIN r => (SameOutcome(r.out, r.twin.out) /\ Len(r.log) = Len(r.twin.log))
 
 Init == l = 1 /\ bad = << >> /\ ndev = 0
 Next == /\ l <= Len(Rec)
@@ -56,7 +66,7 @@ Next == /\ l <= Len(Rec)
         /\ LET r == Rec[l]
                fs == Finals(r)
            IN
-           /\ bad' = IF \E fin \in fs : Explains(fin, r) THEN bad ELSE Append(bad, r.id)
+           /\ bad' = IF (\E fin \in fs : Explains(fin, r)) /\ TwinOK(r) THEN bad ELSE Append(bad, r.id)
            /\ ndev' = IF r.out.k \in {"v", "e"} /\ \A fin \in fs : fin.dev THEN ndev + 1 ELSE ndev
 Spec == Init /\ [][Next]_vars
 
